@@ -732,6 +732,29 @@ let run_gate (args : sx list) : sx =
          L [A "gate"; sx_bool (gate_query e.e_min_index e.e_max_index q)]]
   | _ -> failwith "gate: bad args"
 
+(* ---------- command line tool (C18) ---------------------------------------------- *)
+let sx_observed (o : observed) : sx =
+  L [sx_int (int_of_nat o.o_status); sx_bool o.o_stdout; sx_int (int_of_nat o.o_stderr_lines); sx_bool o.o_traceback]
+
+(* (cli <path|pointer|patch> <debug> success | (raises <stage> (s ...))) *)
+let run_cli (args : sx list) : sx =
+  match args with
+  | [A c; dbg; o] ->
+      let cmd = (match c with "path" -> CmdPath | "pointer" -> CmdPointer | "patch" -> CmdPatch | _ -> failwith "cmd") in
+      let debug = atom_bool dbg in
+      let out = (match o with
+                 | A "success" -> Success
+                 | L [A "raises"; st; cls] -> Raises (nat_of_int (atom_int st), ustr_of_sx cls)
+                 | _ -> failwith "outcome") in
+      let listed = (match out with
+                    | Success -> true
+                    | Raises (st, cls) ->
+                        List.exists (fun r -> match r with
+                                              | Raises (st2, cls2) -> st2 = st && cls2 = cls
+                                              | Success -> false) (rejections cmd)) in
+      L [A "ok"; sx_observed (cli_run cmd debug out); sx_observed (demanded debug out); sx_bool listed; sx_bool (attrs_defined cmd)]
+  | _ -> failwith "cli: bad args"
+
 (* ---------- dispatch ---------------------------------------------------- *)
 let dispatch (x : sx) : sx =
   match x with
@@ -748,6 +771,7 @@ let dispatch (x : sx) : sx =
   | L (A "compile" :: args) -> run_compile args
   | L (A "roundtrip" :: args) -> run_roundtrip args
   | L (A "gate" :: args) -> run_gate args
+  | L (A "cli" :: args) -> run_cli args
   | _ -> failwith "unknown case kind"
 
 let () =
